@@ -83,12 +83,18 @@ fn parse_content(
                         Span::new(base_position + position, base_position + end_position),
                     )
                 })?;
-                let c = std::char::from_u32(code).ok_or_else(|| {
-                    ParseError::InvalidEntity(
-                        entity.to_string(),
-                        Span::new(base_position + position, base_position + end_position),
-                    )
-                })?;
+                // the referenced character has to be an XML character
+                // https://www.w3.org/TR/xml/#NT-Char
+                let c = std::char::from_u32(code)
+                    .filter(|c| {
+                        matches!(c, '\u{9}' | '\u{A}' | '\u{D}' | '\u{20}'..='\u{D7FF}' | '\u{E000}'..='\u{FFFD}' | '\u{10000}'..='\u{10FFFF}')
+                    })
+                    .ok_or_else(|| {
+                        ParseError::InvalidEntity(
+                            entity.to_string(),
+                            Span::new(base_position + position, base_position + end_position),
+                        )
+                    })?;
                 result.push(c);
             } else {
                 match entity.as_str() {
